@@ -19,7 +19,7 @@ from ..flow import flow_of
 from ..model import unparse, stmt_key, Func
 from .common import (
     Ctx, find_api_functions, ctx_global_name, user_calls, store_calls, done_nodes, witness_path,
-    in_handler_or_finally, ancestors, dominated,
+    in_handler_or_finally, ancestors, dominated, stray_store_calls,
 )
 
 PROP = "C10"
@@ -144,6 +144,18 @@ def run(ctx: Ctx) -> None:
                     wit.append(f"sync_paths inside an {hf} body")
                 rep.bad("C10.R3", f.qname, desc, where, wit, stmt_key(call), what="paths can be committed although the root function did not return")
     rep.floor("C10.R2", n_store, 2)
+    # who-may-call: paths are committed by the top-level evaluation function only, blobs by the two API functions only
+    for (names, allowed, what) in (
+        (["sync_paths"], [top], "paths are committed outside the single end-of-evaluation commit: a later failure leaves them committed"),
+        (["store_blob"], [top, nested], "a blob is stored outside the API functions that guard it by the user call's completion"),
+    ):
+        strays = stray_store_calls(ctx, names, allowed)
+        for sf, call in strays:
+            rep.bad("C10.R3" if names == ["sync_paths"] else "C10.R2", sf.qname,
+                    f"{names[0]} is called only from {', '.join(a.name for a in allowed)}", sf.loc(call),
+                    [f"{sf.loc(call)}: `{unparse(call, 70)}` in {sf.qname}"], stmt_key(call), what=what)
+        if not strays:
+            rep.ok("C10.R3" if names == ["sync_paths"] else "C10.R2", "dds", f"{names[0]} is called only from {', '.join(a.name for a in allowed)} (and delegating stores)", "dds/")
 
     # ---- R4 -------------------------------------------------------------------------------
     holders = {f.qname for f in prog.funcs.values() if user_calls(f)}
